@@ -6,7 +6,8 @@
   (`type ::= ident {"." ident} | ARRAY "<" type ">" | STRUCT "<" [field {"," field}] ">"`, `field ::= [ident] type`);
   `expand` — every `>>` token counts as two one-byte tokens `>` `>`, every `<>` as `<` `>`; `yieldT t` — the token
   descriptions a tree stands for (class, and the positions / names the tree records); `Match` — token by token;
-  `wf t` — the first identifier of every `NamedType` path does not read as a simple type name.
+  `wf t` — every `NamedType` path is non-empty, and a ONE-component path does not read as a simple type name (one
+  identifier spelled like a scalar type is that `SimpleType`; `date.T`, `string.x.y` are named types).
   Model: MF/Model/TypeParse.lean (`parseType`, `parseTypeTop`; state = token list whose head is the mutable current
   token), tied to memefish.ParseType by the TYPE channel.
 
@@ -37,16 +38,28 @@ theorem type_sound_top {fuel : Nat} {ts : PState} {t : Ty} (h : parseTypeTop fue
   exact ⟨pre, rest, e, hr, m, w, match_typeD w m⟩
 
 /-- COMPLETENESS (C08 for types).  Every token sequence derivable from G_T is accepted and gives the tree of the
-derivation: if the kinds of the (expanded) tokens in front of `<eof>` form a sentence of G_T and no identifier that
-reads as a simple type name heads a dotted path (`HeadsOK`: memefish rejects `string.x`), then `parseTypeTop`
-succeeds — with the driver's fuel `topFuel ts`, and with every fuel `≥ needT t` — and its result is THE `wf` tree whose
-yield these tokens are.  No bound on the depth or size of the derivation. -/
+derivation: if the kinds of the (expanded) tokens in front of `<eof>` form a sentence of G_T — NO side condition (the
+former `HeadsOK` is gone with the repair of `lookaheadSimpleType`: `string.x`, `STRUCT<a date.t>` are accepted) — then
+`parseTypeTop` succeeds — with the driver's fuel `topFuel ts`, and with every fuel `≥ needT t` — and its result is THE
+`wf` tree whose yield these tokens are.  No bound on the depth or size of the derivation. -/
 theorem type_complete {ts : PState} {pre rest : List Token} (he : expand ts = pre ++ rest) (hr : curX rest = .eof)
-    (hd : TypeD (pre.map (·.kind))) (hh : HeadsOK pre) :
+    (hd : TypeD (pre.map (·.kind))) :
     ∃ t, wf t = true ∧ Match (yieldT t) pre ∧ parseTypeTop (topFuel ts) ts = .ok t ∧
       (∀ fuel, needT t ≤ fuel → parseTypeTop fuel ts = .ok t) ∧
       ∀ t', wf t' = true → Match (yieldT t') pre → t' = t :=
-  typeD_accepted he hr hd hh
+  typeD_accepted he hr hd
+
+/-- the model of `ParseType` accepts EXACTLY the sentences of G_T: soundness and completeness as one equivalence -/
+theorem type_accepts_iff {ts : PState} :
+    (∃ t, parseTypeTop (topFuel ts) ts = .ok t) ↔
+      ∃ pre rest, expand ts = pre ++ rest ∧ curX rest = .eof ∧ TypeD (pre.map (·.kind)) := by
+  constructor
+  · rintro ⟨t, h⟩
+    obtain ⟨pre, rest, e, hr, m, w⟩ := parseTypeTop_sound h
+    exact ⟨pre, rest, e, by cases rest <;> exact hr, match_typeD w m⟩
+  · rintro ⟨pre, rest, e, hr, hd⟩
+    obtain ⟨t, _, _, h, _⟩ := typeD_accepted e hr hd
+    exact ⟨t, h⟩
 
 /-- completeness in tree form, for `parseType` in any context: what follows must not be a `.` -/
 theorem type_complete_tree {t : Ty} (hw : wf t = true) {ts : PState} {pre rest : List Token}
@@ -103,9 +116,37 @@ theorem ex_typeD : TypeD ([K "ARRAY", K "<", K "STRUCT", K "<", .ident, .ident, 
 example : ∃ pre rest, expand exToks = pre ++ rest ∧ cur rest = .eof ∧ Match (yieldT exTree) pre ∧ wf exTree = true ∧
     TypeD (pre.map (·.kind)) := type_sound_top ex_parse
 
-/-- memefish rejects a path headed by a simple type name, which G_T derives (so `HeadsOK` is needed) -/
-example : typeRun (B "string.x") = "ERR" := by decide +kernel
+/-! ## a named type whose first path component spells a scalar type (the repaired defect) -/
+
+/-- `date.T`, `string.x.y`, `` `date`.x `` are NAMED types (before the repair of `lookaheadSimpleType` they were cut
+after the first component and rejected); one identifier spelled like a scalar type is still that scalar type -/
+example : typeRun (B "date.T") = "OK (named (id 0 4 64617465) (id 5 6 54))@0:6 646174652e54 0 6" := by decide +kernel
+example : typeRun (B "string.x.y") =
+    "OK (named (id 0 6 737472696e67) (id 7 8 78) (id 9 10 79))@0:10 737472696e672e782e79 0 10" := by decide +kernel
+example : typeRun (B "`date`.x") = "OK (named (id 0 6 64617465) (id 7 8 78))@0:8 646174652e78 0 8" := by decide +kernel
+example : typeRun (B "date") = "OK (simple 0 44415445)@0:4 44415445 0 4" := by decide +kernel
+example : typeRun (B "x.INT64") = "OK (named (id 0 1 78) (id 2 7 494e543634))@0:7 782e494e543634 0 7" := by decide +kernel
+
+def ex3Buf : Bytes := B "STRUCT<a date.t, b INT64.u>"
+def ex3Toks : List Token := match Lex.lexAll ex3Buf with | .ok ts => ts | _ => []
+def ex3Tree : Ty :=
+  .struct 0 26 (.cons (some ⟨7, 8, B "a"⟩) (.named [⟨9, 13, B "date"⟩, ⟨14, 15, B "t"⟩])
+    (.cons (some ⟨17, 18, B "b"⟩) (.named [⟨19, 24, B "INT64"⟩, ⟨25, 26, B "u"⟩]) .nil))
+theorem ex3_lex : Lex.lexAll ex3Buf = .ok ex3Toks := by rfl
+theorem ex3_parse : parseTypeTop (topFuel ex3Toks) ex3Toks = .ok ex3Tree := by rfl
+theorem ex3_wf : wf ex3Tree = true := by decide
+
+def ex4Tree : Ty := .array 0 14 (.named [⟨6, 12, B "string"⟩, ⟨13, 14, B "x"⟩])
+theorem ex4_run : typeRun (B "ARRAY<string.x>") = "OK " ++ sexpT ex4Tree ++ " " ++ hxs (B "ARRAY<string.x>") ++ " 0 15" := by
+  decide +kernel
+
+/-- the kinds `ident "." ident` are a sentence of G_T, so `type_complete` applies to `date.T` with no side condition -/
 example : TypeD ([.ident, K ".", .ident]) := TypeD.path 1
+
+/-- the residue in `wf`: the ONE-component named type `date` is not `wf` (the token is the simple type DATE);
+every path of two or more components is -/
+example : wf (.named [⟨0, 4, B "date"⟩]) = false := by decide
+example : wf (.named [⟨0, 4, B "date"⟩, ⟨5, 6, B "T"⟩]) = true := by decide
 
 /-- no trailing comma in a field list -/
 example : typeRun (B "STRUCT<a INT64,>") = "ERR" := by decide +kernel
